@@ -251,9 +251,23 @@ def tuple_template(k):
             '    open spec fn need_depth(b: Seq<u8>) -> nat { %s }' % nd(0, '0nat'),
             '    open spec fn need_mem(b: Seq<u8>) -> Option<nat> { %s }' % nm(0, '0nat'),
             '    proof fn law_bound(b: Seq<u8>) { %s }' % law,
+            # a fresh z3 per decoder: with the solver state of the module's earlier queries, tuple_14 sent z3 into a
+            # phase that ignores its resource limit (2 h); alone every arity takes < 2 s
+            '    #[verifier::spinoff_prover]',
             '    //@fn tuple%d.decode :: codec::inner_tuple_impl | %s | decode' % (k, dec_hdr)]
     if k > 1:
         out += ['    //@ subre `\\bINPUT\\b` `I` R2', '    //@ sub `super::Error` `Error` R10']
+        ds = ['%s::dec_bytes(&v.%d)' % (L[i], i) for i in range(k)]
+        # dec_bytes(v) ++ r in right-nested form, oriented by the value (fires for the returned tuple only); without it
+        # arities >= 10 exhaust rlimit 200 rediscovering the reassociation through the extensionality axioms
+        out += ['    //@ at start',
+                # the memory budget of k fields is a k-fold mem_add: unfolded, z3 case-splits on every Option (2^k);
+                # hidden, with the two algebraic facts of mem_assoc as rewrite rules, the proof is linear in k
+                '    //@+ hide(mem_add); hide(mem_fits); hide(mem_after);',
+                '    //@+ proof { assert forall|r: Option<nat>, a: Option<nat>, b: Option<nat>| #[trigger] mem_fits(r, mem_add(a, b)) == (mem_fits(r, a) && mem_fits(mem_after(r, a), b)) by { mem_assoc(r, a, b); } }',
+                '    //@+ proof { assert forall|r: Option<nat>, a: Option<nat>, b: Option<nat>| mem_fits(r, a) implies #[trigger] mem_after(r, mem_add(a, b)) == mem_after(mem_after(r, a), b) by { mem_assoc(r, a, b); } }',
+                '    //@+ proof { assert forall|v: %s, r: Seq<u8>| #[trigger] (<%s as Decode>::dec_bytes(&v) + r) == %s by { assert(((%s) + r) =~= %s); } }'
+                % (ty, ty, rnest(ds + ['r']), rnest(ds), rnest(ds + ['r']))]
     out += ['}', '} // mod %s' % mod, '']
     return '\n'.join(out)
 
